@@ -30,3 +30,21 @@ func init() {
 		NotCovered:  "aliasing (the set returned by Validations shares pointers with the receiver); HasXValidations being true before a clear for every member of the family (the property only requires it false afterwards)",
 	})
 }
+
+func init() {
+	registerProperty(&Property{
+		ID:    "C15",
+		Rules: []string{"lookup-table"},
+		Explanation: "Decides, for every hand-written JSONLookup, agreement with the encoder's tables: a kind whose encoder emits vendor extensions consults Extensions[token]; every tag-driven component the encoder emits is consulted with jsonpointer.GetForToken (maps are indexed by the token); between two consultations a not-found failure falls through (the early error return is guarded by the negated test on the error text, whose constant is a prefix of the format string the pinned jsonpointer uses at its struct-field-not-found site, read from the module cache); the last consultation's result is returned; computed member names (default, decimal status codes) are answered; every kind C15 lists has a JSONLookup.",
+		NotCovered:  "value equality of what is returned; $ref members (excluded by the property); escape decoding of tokens and reflection-based lookup on plain structs (jsonpointer/swag, trusted)",
+	})
+}
+
+func init() {
+	registerProperty(&Property{
+		ID:    "C06",
+		Rules: []string{"escape", "fragment-disjoint", "map-order", "total-order"},
+		Explanation: "Decides the structural conditions of well-formed, collision-free, deterministic encoding: in every function reachable from a MarshalJSON method, whatever is written to an output buffer or returned as bytes is a constant, an encoder result (json.Marshal, MarshalJSON, strconv quoting, ConcatJSON of such) or a constant package table (escape); fragments concatenated into one object have pairwise disjoint tagged names, no tagged name enters the x- / path key space, user-keyed maps pass a constant-prefix filter, and Schema.ExtraProps is only filled after every tagged name, $ref, $schema and x- key has been removed (fragment-disjoint); a range over a map only feeds another map or a slice sorted before use (map-order); sort comparators break ties (total-order).",
+		NotCovered:  "validity of free-form payload encoding (encoding/json), byte-identity across runs as an observed fact, duplicate keys arising from case-insensitive matching in encoding/json's decoder",
+	})
+}
